@@ -270,6 +270,19 @@ def event_scenarios(tier):
             out.append((f"rt_evT_{at}_{tg}", dict(rt_factor=1, until=until,
                                                   sims=[T("A", 2, set_events=True)], conns=[],
                                                   events=[("A", at, tg)]), [0, 1.5]))
+    # the simulator that receives the event sits in a group (one and two levels deep), alone or
+    # with a consumer in the same group
+    for gname, groups in (("g", {"g": None}), ("h", {"g": None, "h": "g"})):
+        for at in grid[::2]:
+            for tg in ("now+1", "until-1", "until", "now"):
+                out.append((f"rt_evG_{gname}_{at}_{tg}", dict(
+                    rt_factor=1, until=until, groups=groups,
+                    sims=[E("A", set_events=True, emit_default=0, group=gname), E("B", group="g")],
+                    conns=conns, events=[("A", at, tg)]), [0]))
+                out.append((f"rt_evGT_{gname}_{at}_{tg}", dict(
+                    rt_factor=1, until=until, groups=groups,
+                    sims=[T("A", 2, set_events=True, group=gname)], conns=[],
+                    events=[("A", at, tg)]), [0]))
     # outside real-time mode
     for tg in ("now+1", "until-1", "until", "until+3"):
         out.append((f"nonrt_event_{tg}", dict(until=3, sims=[E("A", set_events=True, init_event=0,
